@@ -38,6 +38,7 @@ CONSTANTS Fams,        \* families explored: subset of {"reg","single","ns","stu
           NsPortions,  \* sets of search-path indices a namespace package may be spread over
           CwdSet,      \* positions of the current working directory
           FormSet,     \* how sp1/sp2 are passed: "abs", "rel", "sym"
+          AgentSet,    \* "visit" (static analysis), "inspect" (force_inspection=True: every module is imported)
           MaxNsKids,   \* ... of one portion of a namespace package
           MaxNsTotal,  \* ... of all portions together
           Emit
@@ -130,9 +131,9 @@ VARIABLES fam,      \* family
           sg,       \* search path holding `pkg-stubs` (0: none);  skids: its optional files
           skids,
           chain,    \* family api: filepath kind of pkg / pkg.mid / pkg.mid.leaf
-          form, req,
+          form, req, agent,
           pc, nodes, roots, obs, aliases, viol
-casevars == <<fam, top, kids, sg, skids, chain, form, req>>
+casevars == <<fam, top, kids, sg, skids, chain, form, req, agent>>
 vars == <<casevars, pc, nodes, roots, obs, aliases, viol>>
 
 P == DOMAIN kids                        \* portions of the run-time package
@@ -315,7 +316,7 @@ AliasPlan(N) ==
   ELSE LET a == ByRank(H, MinOf)
            direct == {[at |-> a.name, name |-> MA[Rank(n.name)], tgt |-> n.name, obj |-> "", src |-> <<>>, via |-> ""] : n \in N \ {a}}
                      \cup {[at |-> a.name, name |-> KA[Rank(n.name)], tgt |-> n.name, obj |-> "K", src |-> <<>>, via |-> ""] : n \in H \ {a}}
-       IN IF Cardinality(H) < 3 THEN direct
+       IN IF Cardinality(H) < 3 \/ agent = "inspect" THEN direct      \* (a re-import would be a circular import at run time)
           ELSE LET c == ByRank(H, MaxOf)
                    t == ByRank(H \ {a, c}, MinOf)
                IN direct \cup {[at |-> c.name, name |-> "kk", tgt |-> t.name, obj |-> "K", src |-> a.name, via |-> KA[Rank(t.name)]]}
@@ -324,7 +325,7 @@ AliasPlan(N) ==
 \* the target raises AliasResolutionError, `path` still answers.  Impl: AliasResolutionError.__init__ formats
 \* `alias.parent.relative_filepath` and only expects BuiltinModuleError from it.
 Dangling(N) ==
-  IF Holders(N) = {} THEN <<>>
+  IF Holders(N) = {} \/ agent = "inspect" THEN <<>>           \* (a failing import would abort the inspection)
   ELSE LET h == ByRank(Holders(N), MinOf)
        IN <<[at |-> h.name, name |-> "zz0", target |-> "nowhere_x03.zz", err |-> "AliasResolutionError",
              ierr |-> [c \in Cwds |-> IF ImplRelFilepath(h, CwdPath(c)) = ValueErr THEN "ValueError" ELSE "AliasResolutionError"]]>>
@@ -356,7 +357,10 @@ InitFam ==
 Init ==
   /\ fam \in Fams
   /\ InitFam
-  /\ form \in FormSet /\ req \in {"name", "path"}
+  /\ form \in FormSet /\ req \in {"name", "path"} /\ agent \in AgentSet
+  \* the module table and every attribute are the same whichever agent built the tree; stubs cannot be imported
+  /\ (agent = "inspect" => top \in {"regular", "ns"} /\ fam \in {"reg", "ns"} /\ form = "abs" /\ req = "name"
+                            /\ \A i \in P : kids[i] \cap {"ai", "ii"} = {})
   /\ (fam \in {"api", "builtin"} => form = "abs" /\ req = "name")
   \* request by path: load(Path(<top directory>)) with search paths that do not contain it
   /\ (req = "path" => fam \in {"reg", "ns"} /\ Cardinality(P) = 1 /\ ~Pth /\ form = "abs")
@@ -431,7 +435,7 @@ NoViolationAnywhere == Done => viol = {}
 EmitCase ==
   (Emit /\ Done) =>
     PrintT(<<"CASE", ToJson([fam |-> fam, top |-> top, kids |-> {[i |-> i, ks |-> kids[i]] : i \in P}, sg |-> sg, skids |-> skids,
-                             chain |-> chain, cwds |-> [c \in Cwds |-> CwdPath(c)], form |-> form, req |-> req, pth |-> Pth,
+                             chain |-> chain, cwds |-> [c \in Cwds |-> CwdPath(c)], form |-> form, req |-> req, agent |-> agent, pth |-> Pth,
                              disk |-> Disk, dirs |-> DiskDirs, roots |-> roots, obs |-> obs, aliases |-> aliases,
                              dangling |-> Dangling(nodes),
                              causes |-> Causes, viol |-> viol])>>)
